@@ -3,7 +3,7 @@
    State/CommitReopen.v.  All theorems are parametric in the hash function H; collision
    freedom is a hypothesis on the set [play] of tries involved, never on all inputs. *)
 From stdpp Require Import gmap.
-From GV Require Import Lib.Bytes Trie.Node Trie.Hash Trie.OpsProofs Trie.Canon State.Ref State.Journal State.Commit State.CommitProofs State.CommitReopen State.CommitSync State.CommitFin State.CommitBlock.
+From GV Require Import Lib.Bytes Trie.Node Trie.Hash Trie.OpsProofs Trie.Canon State.Ref State.Journal State.Commit State.CommitProofs State.CommitReopen State.CommitSync State.CommitFin State.CommitBlock State.CommitChain.
 
 (* Commit after IntermediateRoot returns the root IntermediateRoot returned (any rules
    at either call: the second Finalise finds an empty journal). *)
@@ -200,6 +200,106 @@ Theorem C14_root_depends_only_on_state_block_partial :
     roota = rootb.
 Proof. exact block_root_depends_only_on_state. Qed.
 Print Assumptions C14_root_depends_only_on_state_block_partial.
+
+(* ------------------------------------------------------------------------------------
+   Chains of blocks, end to end.  [universe] bundles the hypotheses on H (32-byte byte
+   strings; collision freedom of the secure keys on the addresses/slots in play, of the root
+   hash on the tries in play, of the code hash on the codes in play) and says that state.New
+   loads exactly the universe in play (Journal.v's eager loading).  [chain p cs0]: (p, cs0) is
+   reached from the empty chain start by any number of blocks, each = any list of transactions
+   (journalled calls inside the C13 guards with arbitrarily nested Snapshot/RevertToSnapshot,
+   Finalise under any rules, optionally IntermediateRoot), IntermediateRoot, Commit with a
+   changed root, state.New(root).  [blk_ok] = the block's guards: txs_ok as above, the tries of
+   the final state in play, its values in Go's ranges (uint64 nonce, uint256 balance, 32-byte
+   slots), and - NOT derived, hence the _partial of the getter theorems - [code_guard]: the
+   code of every live object is in the code store or its object is marked dirtyCode and is
+   an update of StateDB.mutations. *)
+
+(* state.New on every committed root of every chain returns a state satisfying the
+   between-transactions invariant over a well-formed database *)
+Theorem C14_chain_inv :
+  forall H addr_ok slot_ok play code_ok al ks, universe H addr_ok slot_ok play code_ok al ks ->
+  forall p cs0, chain H addr_ok slot_ok play code_ok al ks p cs0 ->
+    Sync H addr_ok slot_ok p cs0 /\ pdb_ok H play p /\ codes_ok H code_ok p /\
+    open H al ks p (c_root cs0) = COk cs0.
+Proof. exact @u_chain_inv. Qed.
+Print Assumptions C14_chain_inv.
+
+(* FULL statement: for every chain of blocks, Commit returns the IntermediateRoot root and
+   state.New on it answers every persistent getter (Exist, Empty, GetBalance, GetNonce,
+   GetCode/Hash/Size, GetState, GetCommittedState on the universe) like the finalised state.
+   PROVED: exactly that, at getter level (RLP decode round trip of account and slot blobs, code
+   store), for every block whose root changed, after any chain.  MISSING: code_guard is a
+   hypothesis of the block (see above); for a block whose root did not change see
+   C14_empty_update_chain; SetTxContext/Prepare are not among the calls of a body. *)
+Theorem C14_reopen_reads_chain_partial :
+  forall H addr_ok slot_ok play code_ok al ks, universe H addr_ok slot_ok play code_ok al ks ->
+  forall p cs0 b cs cs1 root root' p',
+    chain H addr_ok slot_ok play code_ok al ks p cs0 ->
+    blk_ok H addr_ok slot_ok play code_ok p cs0 b cs cs1 root -> root <> c_root cs1 ->
+    commit H (b_crules b) p cs1 = COk (root', p') ->
+    root' = root /\ open H al ks p' root' = COk (reopened H al ks cs1 root') /\
+    (forall q, persistent_in slot_ok q -> query_c (reopened H al ks cs1 root') q = query_c cs1 q) /\
+    exists T, hashed H addr_ok slot_ok play p cs1 T /\ hash_root H T = Some root.
+Proof. exact @u_chain_reopen_reads. Qed.
+Print Assumptions C14_reopen_reads_chain_partial.
+
+(* a block whose root did not change: Commit writes nothing and state.New(root) is the state the
+   block started from ... *)
+Theorem C14_empty_update_chain :
+  forall H addr_ok slot_ok play code_ok al ks, universe H addr_ok slot_ok play code_ok al ks ->
+  forall p cs0 b cs cs1 root root' p',
+    chain H addr_ok slot_ok play code_ok al ks p cs0 ->
+    blk_ok H addr_ok slot_ok play code_ok p cs0 b cs cs1 root -> root = c_root cs1 ->
+    commit H (b_crules b) p cs1 = COk (root', p') ->
+    root' = root /\ p' = p /\ open H al ks p' root' = COk cs0.
+Proof. exact @u_chain_empty_update. Qed.
+Print Assumptions C14_empty_update_chain.
+
+(* ... and every persistent getter of that state equals the finalised state's: an unchanged root
+   means an unchanged state (collision freedom of the root hash on the tries in play, then the
+   RLP round trip of the account blobs) *)
+Theorem C14_empty_update_getters_chain :
+  forall H addr_ok slot_ok play code_ok al ks, universe H addr_ok slot_ok play code_ok al ks ->
+  forall p cs0 b cs cs1 root,
+    chain H addr_ok slot_ok play code_ok al ks p cs0 ->
+    blk_ok H addr_ok slot_ok play code_ok p cs0 b cs cs1 root -> root = c_root cs1 ->
+    forall q, persistent_in slot_ok q -> query_c cs0 q = query_c cs1 q.
+Proof. exact @u_chain_empty_update_getters. Qed.
+Print Assumptions C14_empty_update_getters_chain.
+
+(* destruct + re-create + commit + reopen after any chain: GetState and GetCommittedState of a
+   slot the new incarnation did not write are 0 in the reopened state *)
+Theorem C14_destruct_recreate_clean_chain_partial :
+  forall H addr_ok slot_ok play code_ok al ks, universe H addr_ok slot_ok play code_ok al ks ->
+  forall p cs0 b cs cs1 root root' p' a o k,
+    chain H addr_ok slot_ok play code_ok al ks p cs0 ->
+    blk_ok H addr_ok slot_ok play code_ok p cs0 b cs cs1 root -> root <> c_root cs1 ->
+    commit H (b_crules b) p cs1 = COk (root', p') ->
+    a ∈ j_destruct (c_j cs1) -> j_objs (c_j cs1) !! a = Some o -> o_pending o !! k = None -> slot_ok k ->
+    query_c (reopened H al ks cs1 root') (QState a k) = AN 0%N /\
+    query_c (reopened H al ks cs1 root') (QCommitted a k) = AN 0%N.
+Proof. exact @u_chain_destruct_recreate_clean. Qed.
+Print Assumptions C14_destruct_recreate_clean_chain_partial.
+
+(* two chains of any length, each followed by one more block, that end in the same observable
+   accounts return the same root (code_guard is part of blk_ok but not used by this proof) *)
+Theorem C14_root_depends_only_on_state_chain :
+  forall H addr_ok slot_ok play code_ok al ks, universe H addr_ok slot_ok play code_ok al ks ->
+  forall pa csa0 ba csa csa1 roota pb csb0 bb csb csb1 rootb,
+    chain H addr_ok slot_ok play code_ok al ks pa csa0 ->
+    blk_ok H addr_ok slot_ok play code_ok pa csa0 ba csa csa1 roota ->
+    chain H addr_ok slot_ok play code_ok al ks pb csb0 ->
+    blk_ok H addr_ok slot_ok play code_ok pb csb0 bb csb csb1 rootb ->
+    (forall a, match j_objs (c_j csa1) !! a, j_objs (c_j csb1) !! a with
+          | Some o1, Some o2 => o_data o1 = o_data o2 /\
+                                forall k, slot_ok k -> committed (c_j csa1) a o1 k = committed (c_j csb1) a o2 k
+          | None, None => True
+          | _, _ => False
+          end) ->
+    roota = rootb.
+Proof. exact @u_chain_root_depends_only_on_state. Qed.
+Print Assumptions C14_root_depends_only_on_state_chain.
 
 Example C14_nonvacuous : sample_check = true.
 Proof. vm_compute. reflexivity. Qed.
